@@ -85,7 +85,14 @@ func (o *Op) scriptStep() (string, bool) {
 	case "len":
 		expr = fmt.Sprintf("len(%s)", t)
 	case "fn":
-		expr = fmt.Sprintf("%s(%s)", o.Name, t)
+		switch o.Name {
+		case "sorted_keep":
+			expr = fmt.Sprintf("sorted(%s, func(x, y) { return false })", t)
+		case "sorted_by_type":
+			expr = fmt.Sprintf("sorted(%s, func(x, y) { return type(x) < type(y) })", t)
+		default:
+			expr = fmt.Sprintf("%s(%s)", o.Name, t)
+		}
 	case "add":
 		expr = fmt.Sprintf("%s + %s", t, arg(0))
 	case "eq":
@@ -334,6 +341,18 @@ func (e *apiEnv) step(o *Op) (res object.Object, skip bool, err error) {
 			f = builtins.Any
 		case "all":
 			f = builtins.All
+		case "sorted_keep", "sorted_by_type":
+			// the comparator has to be a compiled function: the call is made by a one-line evaluation that
+			// receives the live object as a global
+			less := "func(x, y) { return false }"
+			if o.Name == "sorted_by_type" {
+				less = "func(x, y) { return type(x) < type(y) }"
+			}
+			r, err := risor.Eval(context.Background(), "sorted(__t, "+less+")", risor.WithGlobal("__t", t))
+			if err != nil {
+				return nil, false, err
+			}
+			return r, false, asErr(r)
 		default:
 			return nil, true, nil
 		}
